@@ -1,11 +1,9 @@
 From Coq Require Import Extraction ExtrOcamlBasic.
-From CV Require Import Base.Num C06.RestraintModel C03.ResumeModel C03.ObjectsModel C03.AbfObject.
-From CV Require C04.ABFModel C05.MetaModel.
-From CV Require Import C03.MetaObject.
+From CV Require Import Base.Num C03.ResumeModel C03.ObjectsModel C03.UsesC06 C03.UsesC04.
+From CV Require Import C03.UsesC05.
 Extraction Language OCaml.
-Extraction "model.ml" mkNumOps nhalf mkVar mkCfg mkSt mkOut
+Extraction "model.ml" mkNumOps nhalf
   mkMachine mkMod run_from run state_file resume go_on pair_machine cascade_machine list_machine
-  mkRSaved restraint_machine mkHCfg histogram_machine mkACfg abmd_machine mkAb
+  mkRSaved restraint_machine mkHCfg histogram_machine mkACfg abmd_machine
   mkHRCfg histrestraint_machine mkXCfg mkXSt mkXIn extlag_machine bin_value x_fsys mkMCfg module_machine
-  abf_machine eabf_machine ABFModel.mkCfg ABFModel.mkSt ABFModel.mkIn ABFModel.mkOut ABFModel.index_ok
-  meta_machine MetaModel.mkCfg MetaModel.mkVar MetaModel.mkBound MetaModel.mkHill MetaModel.mkState.
+  abf_machine eabf_machine meta_machine.
